@@ -35,36 +35,44 @@ def rollCountLS {α} (w : Nat) : LSplit α where
     if c + 1 = w then (0, pre ++ [.itm 0 x, .cls 0]) else (c + 1, pre ++ [.itm 0 x])
   fin := fun c => if c > 0 then [.cls 0] else []
 
-/-- ring slots by offset; local id of a window = its ring offset -/
-def lsDeliver {α} (w d : Nat) (x : α) (n : Nat) : Nat → (Nat → Option Nat) → (Nat → Option Nat) × List (Cmd α)
-  | 0, ws => (ws, [])
-  | o+1, ws =>
-    let off := d - (o + 1)
-    match ws off with
+abbrev Slots := Nat → Option Nat
+
+/-- the `for offset in range(density)` loop of `_roll.on_next`, `f` iterations left, at offset `o`:
+deliver the item to every open window, close the ones that are now full.
+A slot holds the index `n0` of the first item of its window. -/
+def deliver {α} (w n : Nat) (x : α) : (f o : Nat) → Slots → Slots × List (Cmd α)
+  | 0, _, sl => (sl, [])
+  | f+1, o, sl =>
+    match sl o with
     | some n0 =>
       if n - n0 + 1 = w then
-        let r := lsDeliver w d x n o (upd ws off none)
-        (r.1, [Cmd.itm off x, Cmd.cls off] ++ r.2)
+        let r := deliver w n x f (o+1) (upd sl o none)
+        (r.1, .itm o x :: .cls o :: r.2)
       else
-        let r := lsDeliver w d x n o ws
-        (r.1, [Cmd.itm off x] ++ r.2)
-    | none => lsDeliver w d x n o ws
+        let r := deliver w n x f (o+1) sl
+        (r.1, .itm o x :: r.2)
+    | none => deliver w n x f (o+1) sl
 
-/-- flush at completion: open windows in OPENING order (oldest first) -/
-def lsFlush {α} (d first : Nat) (ws : Nat → Option Nat) : List (Cmd α) :=
+/-- `if (n % stride) == 0:` a window is opened in ring slot `(n // stride) % density` -/
+def openSlot {α} (s d n : Nat) (sl : Slots) : Slots × List (Cmd α) :=
+  if n % s = 0 then (upd sl ((n / s) % d) (some n), [.opn ((n / s) % d)]) else (sl, [])
+
+/-- one item of one parent key; state = (items seen, ring) -/
+def rollItem {α} (w s d : Nat) (st : Nat × Slots) (x : α) : (Nat × Slots) × List (Cmd α) :=
+  let r1 := openSlot (α := α) s d st.1 st.2
+  let r2 := deliver w st.1 x d 0 r1.1
+  ((st.1 + 1, r2.1), r1.2 ++ r2.2)
+
+/-- flush at completion: the open windows, oldest first (ring walked from the slot after the last
+opened window) -/
+def lsFlush {α} (d first : Nat) (ws : Slots) : List (Cmd α) :=
   ((List.range d).map (fun o => (first + o) % d)).filterMap fun off =>
     match ws off with | some _ => some (Cmd.cls off) | none => none
 
 def rollRingLS {α} (w s : Nat) : LSplit α where
-  τ := Nat × (Nat → Option Nat)
+  τ := Nat × Slots
   init := (0, fun _ => none)
-  next := fun st x =>
-    let d := density w s
-    let n := st.1
-    let (ws1, pre) :=
-      if n % s = 0 then (upd st.2 ((n / s) % d) (some n), [Cmd.opn ((n / s) % d)]) else (st.2, [])
-    let r := lsDeliver w d x n d ws1
-    ((n + 1, r.1), pre ++ r.2)
+  next := rollItem w s (density w s)
   fin := fun st =>
     let d := density w s
     lsFlush d (((st.1 + s - 1) / s) % d) st.2
